@@ -33,6 +33,42 @@ struct St {
     b: String,
 }
 
+/// a hand-written `Deserialize` whose visitor takes `Some(..)` but not `None` (errors raised by the VISITOR, not by the parser,
+/// must carry the position of the value as well)
+#[derive(Debug)]
+struct NoNone;
+impl<'de> Deserialize<'de> for NoNone {
+    fn deserialize<D: serde::Deserializer<'de>>(d: D) -> Result<Self, D::Error> {
+        struct V;
+        impl<'de> serde::de::Visitor<'de> for V {
+            type Value = NoNone;
+            fn expecting(&self, f: &mut std::fmt::Formatter) -> std::fmt::Result {
+                f.write_str("something")
+            }
+            fn visit_some<D2: serde::Deserializer<'de>>(self, d: D2) -> Result<NoNone, D2::Error> {
+                serde::de::IgnoredAny::deserialize(d).map(|_| NoNone)
+            }
+        }
+        d.deserialize_option(V)
+    }
+}
+
+#[derive(Deserialize, Debug)]
+#[allow(dead_code)]
+enum En {
+    A,
+    B(u8),
+    C { x: u8 },
+}
+
+#[derive(Deserialize, Debug)]
+#[allow(dead_code)]
+struct StV {
+    a: Option<NoNone>,
+    b: Option<En>,
+    x: Option<sonic_rs::RawNumber>,
+}
+
 pub fn run_case(t: &[u8]) -> String {
     let mut f: Vec<String> = Vec::new();
     macro_rules! ep {
@@ -48,6 +84,11 @@ pub fn run_case(t: &[u8]) -> String {
     ep!("f64", res(sonic_rs::from_slice::<f64>(t)));
     ep!("st", res(sonic_rs::from_slice::<St>(t)));
     ep!("sj", res(sonic_rs::from_slice::<serde_json::Value>(t)));
+    // errors raised by visitors (a rejected `null`, unknown variants, wrong payloads, a string where a raw number is expected)
+    ep!("nonone", res(sonic_rs::from_slice::<NoNone>(t)));
+    ep!("vnonone", res(sonic_rs::from_slice::<Vec<NoNone>>(t)));
+    ep!("en", res(sonic_rs::from_slice::<En>(t)));
+    ep!("stv", res(sonic_rs::from_slice::<StV>(t)));
     ep!("map", res(sonic_rs::from_slice::<std::collections::BTreeMap<String, Value>>(t)));
     if let Ok(s) = std::str::from_utf8(t) {
         ep!("dom_str", res(sonic_rs::from_str::<Value>(s)));
@@ -181,6 +222,8 @@ pub fn gen(seed: u64, thorough: bool) {
     let fixed: &[&[u8]] = &[
         b"", b" ", b"\n\n", b"{\n\n  \"a\": 1e999}", b"{\"a\":\n[1,\n2,\n x]}", b"[1,2", b"{\"a\":1,\"b\":[0,\n\"\xff\"]}",
         b"{\"b\":{\"c\":\n\n1e999}}", b"{\"a\":tru}", b"[1,2]\n\n\nx", b"\xff", b"\n\n\xff", b"{\"a\":\"\\uD800\"}",
+        b"null", b"\n\n null", b"[1,\n null]", b"{\"a\":\n\n  null,\"b\":\"A\"}", b"\n \"Nope\"", b"{\"b\":\n{\"B\":\"x\"}}", b"{\"x\":\n \"12\"}", b"{\"x\":\n \"ab\"}",
+        b"{\"a\":1,\"b\":\n\n {\"Z\":1}}", b"[null]", b" [\n\n[] ,null ]",
         b"1 2 3 x", b"[1] [2] {", b"{\"a\":1}\n{\"a\":", b"{\"a\":{\"a\":{\"a\":[1,2,{\"a\":nul",
     ];
     for t in fixed {
